@@ -179,6 +179,20 @@ PROPS = {
   'essential_classes': ['scheme:ksi', 'scheme:ksi+http', 'scheme:ksi+https', 'scheme:ksi+tcp', 'scheme:file', 'scheme:http', 'scheme:x-unknown', 'embedded-credentials', 'mixed-case-scheme', 'host:ipv6', 'port:boundary', 'async-refusal',
                         'service:blocking-aggregator', 'service:blocking-extender', 'service:async-signing', 'service:async-extending', 'explicit:U-', 'explicit:-K', 'explicit:UK', 'explicit:--'],
   'assumptions': ['ports are generated as canonical decimals; percent-encoding in user-info is not generated'],
+ }, 'C13': {
+  'technique': 'stateful model-based testing (rapidcheck schedules + exhaustive short schedules) over a simulated socket layer and clock, history invariants after every step',
+  'level_text': 'Schedules of {add request, run, valid / duplicate / early / unknown-id / stale / bad-MAC / error-status / error-PDU / pushed-config / garbage reply, deliver k bytes, close, reset, refuse next connection, advance clock, block sends} '
+                'are executed against the asynchronous signing service over in-memory sockets with a harness-owned clock; after every step the history invariants are checked against a model: a returned handle is an accepted not-yet-returned request in a final state; '
+                'a response only if an authentic status-zero reply with that id was delivered after the request had completely reached the server, with a signature for that request\'s hash; an error only with a cause that occurred (or a timeout that has elapsed on the simulated clock); '
+                'cache-full exactly at capacity; waiting / pending+received counts equal the outstanding requests; a drain phase makes never-lost checkable. Exhaustive for all schedules up to length 4 (5) at cache sizes 1 and 2.',
+  'level_note': 'Trusted: sim/simsock.cpp POSIX model (documented in simnet.hpp), the request/response model in harness/C13.cpp, ref/pdu.cpp. Pushed configurations are routed to the callback so that they do not add handles. The HTTP back-end is exercised by C07/C06/C20, not here.',
+  'rule': 'rapidcheck choice strings -> (cache size 1..64, per-round limit, send/receive/connect timeouts incl. 0, 0..300 operations); exhaustive: all operation strings of length <= L containing an add. '
+          'Non-trivial = >= 2 requests and a fault or a reply that is not the plain valid one; distinct = distinct (configuration, operation string).',
+  'quick': {'cases': 4800, 'max_size': 300, 'exhaustive': True, 'wall_s': 1200},
+  'thorough': {'cases': 96000, 'max_size': 400, 'exhaustive': True, 'wall_s': 3400},
+  'sim': ['simsock', 'fakecurl', 'simclock'],
+  'essential_classes': ['add:accepted', 'add:cache-full', 'returned:response', 'returned:error', 'op:stale', 'op:early-reply', 'early-reply-queued', 'stale-reply-queued', 'op:close', 'op:reset', 'op:refuse-next', 'op:advance', 'op:block-send', 'closed-inside-a-pdu', 'push-config-delivered', 'cache-size:5+'],
+  'assumptions': ['simulated socket semantics as documented in sim/simnet.hpp'],
  },
 }
 
